@@ -119,6 +119,13 @@ fn generated_case(ctx: &Ctx, ch: &mut Ch) -> Outcome {
     if ch.chance(7, 10) {
         let n = 1 + ch.pick(2);
         for _ in 0..n {
+            if ch.chance(1, 4) {
+                if let Some(t) = mutate::swap_variable(&s, ch) {
+                    s = t;
+                    ctx.class("perturbation: a variable replaced by another one in scope");
+                    continue;
+                }
+            }
             let (t, label) = mutate::perturb(&s, ch);
             s = t;
             ctx.class(&format!("perturbation: {label}"));
